@@ -43,7 +43,7 @@ macro_rules! stem_attr { ($name:ident, $get:expr, $want:expr, $msg:expr) => {
   }
 } }
 stem_attr!(c19_k_stem_element, |h: &HeavenStem| h.get_element().get_index() as i64, |s| spec::stem_element(s), "stem element");
-stem_attr!(c19_k_stem_polarity, |h: &HeavenStem| yy(h), |s| spec::polarity(s), "stem polarity");
+// (stem polarity: string-based enum equality, times out; enumerated by c19_attributes)
 stem_attr!(c19_k_stem_direction, |h: &HeavenStem| h.get_direction().get_index() as i64, |s| spec::element_direction(spec::stem_element(s)), "stem direction");
 stem_attr!(c19_k_stem_joy, |h: &HeavenStem| h.get_joy_direction().get_index() as i64, |s| spec::joy_direction(s), "joy direction rhyme");
 stem_attr!(c19_k_stem_yang_noble, |h: &HeavenStem| h.get_yang_direction().get_index() as i64, |s| spec::noble_direction(s, true), "yang noble rhyme");
@@ -61,14 +61,8 @@ fn c19_k_ten_star() {
   kani::cover!(s == 9 && t == 0, "ten_star reachable");
 }
 
-fn c19_terrain_body(slo: isize, shi: isize) {
-  let s: isize = kani::any(); let b: isize = kani::any();
-  kani::assume(s >= slo && s <= shi && b >= 0 && b < 12);
-  let r = HeavenStem::from_index(s).get_terrain(EarthBranch::from_index(b));
-  assert!(r.get_index() as i64 == spec::growth_stage(s as i64, b as i64), "growth stage: forward from the birth branch for Yang, backward for Yin");
-  kani::cover!(b == 3, "terrain reachable");
-}
-//@SLICES prefix=c19_k_terrain call=c19_terrain_body lo=0 hi=9 n=10
+// (growth stages 10 x 12: the Kani harness times out even per stem - get_terrain compares YinYang values through their
+//  names; decided by the complete enumeration c19_attributes.)
 
 macro_rules! branch_attr { ($name:ident, $get:expr, $want:expr, $msg:expr) => {
   #[kani::proof]
@@ -87,8 +81,7 @@ branch_attr!(c19_k_branch_direction, |e: &EarthBranch| e.get_direction().get_ind
 branch_attr!(c19_k_branch_zodiac, |e: &EarthBranch| e.get_zodiac().get_index() as i64, |b| b, "zodiac animal");
 branch_attr!(c19_k_branch_ominous, |e: &EarthBranch| e.get_ominous().get_index() as i64, |b| spec::ominous_direction(b), "ominous direction");
 branch_attr!(c19_k_branch_hide_main, |e: &EarthBranch| e.get_hide_heaven_stem_main().get_index() as i64, |b| spec::hidden_stems(b).0, "hidden stem (main)");
-branch_attr!(c19_k_branch_hide_middle, |e: &EarthBranch| e.get_hide_heaven_stem_middle().map(|x| x.get_index() as i64).unwrap_or(-1), |b| spec::hidden_stems(b).1, "hidden stem (middle)");
-branch_attr!(c19_k_branch_hide_residual, |e: &EarthBranch| e.get_hide_heaven_stem_residual().map(|x| x.get_index() as i64).unwrap_or(-1), |b| spec::hidden_stems(b).2, "hidden stem (residual)");
+// (hidden middle / residual stems: Option-valued getters, time out; enumerated by c19_attributes)
 branch_attr!(c19_k_branch_clash, |e: &EarthBranch| e.get_opposite().get_index() as i64, |b| spec::clash(b), "clash");
 branch_attr!(c19_k_branch_combine, |e: &EarthBranch| e.get_combine().get_index() as i64, |b| spec::six_combine(b).0, "six-combination partner");
 branch_attr!(c19_k_branch_harm, |e: &EarthBranch| e.get_harm().get_index() as i64, |b| spec::harm(b), "harm partner");
